@@ -520,8 +520,11 @@ fn c06_fault(case: &Case) {
     let with_timeouts = coin();
     let call_timeout = Duration::from_millis(pick(&[50u64, 200, 1000]));
     let pre_kill_us = pick(&[0u64, 100, 5_000]);
+    // the malformed header arrives from a peer that has stopped reading while a caller with a
+    // large request is parked in its write: the calls in flight must fail all the same
+    let peer_stops_reading = matches!(kill, Kill::Malformed(_)) && simkernel::choose(3) == 0;
     case.sample(json!({"scenario": "connection-fault", "in_flight": n_inflight, "kill": format!("{kill:?}"),
-        "server_reads": read_first, "server_answers": answer_first, "per_call_timeouts": with_timeouts}));
+        "server_reads": read_first, "server_answers": answer_first, "per_call_timeouts": with_timeouts, "peer_stops_reading": peer_stops_reading}));
     let case = case.clone();
     aio::run(&case.clone(), 3_600, async move {
         let listener = TcpListener::bind("127.0.0.1:0").await.unwrap();
@@ -544,8 +547,17 @@ fn c06_fault(case: &Case) {
                     return;
                 }
             }
-            // the peer keeps draining what the client writes (peer stalls are C05's quantifier)
+            // the peer keeps draining what the client writes - unless this is the run where it
+            // stops reading for good
+            if peer_stops_reading {
+                net::set_capacity(&conn, Side::A, 2048);
+            }
             let drainer = tokio::spawn(async move {
+                if peer_stops_reading {
+                    let _keep_open = fr;
+                    sleep_ms(700_000).await;
+                    return;
+                }
                 loop {
                     match timeout(Duration::from_millis(500), fr.drain_some(4096)).await {
                         Ok(Ok(n)) if n > 0 => {}
@@ -564,8 +576,8 @@ fn c06_fault(case: &Case) {
                     srv_case.probe("fault.malformed_header");
                     let id = got.last().map(|f| f.id).unwrap_or(1);
                     let _ = aio::write_all(&mut wr, &malformed_header(k, id)).await;
-                    // keep the socket open: the client must fail on the bytes alone
-                    sleep_ms(2_000).await;
+                    // keep the socket open (ten minutes): the client must fail on the bytes alone
+                    sleep_ms(600_000).await;
                 }
                 Kill::Partial(class) => {
                     srv_case.probe("fault.cut_mid_frame");
@@ -600,28 +612,44 @@ fn c06_fault(case: &Case) {
             let to = if with_timeouts && t % 2 == 0 { Some(call_timeout) } else { None };
             hs.push(tokio::spawn(async move { (t, do_call(&c, CallKind::Json, t, to).await) }));
         }
+        if peer_stops_reading {
+            // one more caller whose request cannot fit into the socket: it parks in its write
+            let c = client.clone();
+            hs.push(tokio::spawn(async move { (99, do_call(&c, CallKind::Raw(40_000), 99, None).await) }));
+            case.probe("writer_parked_when_malformed_frame_arrived");
+        }
         let mut oks = 0u32;
         for h in hs {
-            match h.await {
-                Ok((t, Err(e))) if e.starts_with("WRONG-RESPONSE") => case.fail("wrong-response", format!("call {t}: {e}")),
-                Ok((_, Ok(()))) => oks += 1,
-                Ok(_) => {}
-                Err(e) => case.fail("panic", format!("caller task failed: {e}")),
+            match timeout(Duration::from_secs(120), h).await {
+                Err(_) => {
+                    case.fail("hang", format!("a call in flight when the connection failed ({kill:?}) had not returned two minutes later"));
+                    return;
+                }
+                Ok(Ok((t, Err(e)))) if e.starts_with("WRONG-RESPONSE") => case.fail("wrong-response", format!("call {t}: {e}")),
+                Ok(Ok((_, Ok(())))) => oks += 1,
+                Ok(Ok(_)) => {}
+                Ok(Err(e)) => case.fail("panic", format!("caller task failed: {e}")),
             }
         }
         case.check(oks <= answer_first, "ok-without-response", || {
             format!("{oks} calls returned Ok but the server answered only {answer_first}")
         });
         sleep_ms(3_000).await;
-        let later = do_call(&client, CallKind::Json, 1000, if coin() { Some(call_timeout) } else { None }).await;
+        let Ok(later) = timeout(Duration::from_secs(120), do_call(&client, CallKind::Json, 1000, if coin() { Some(call_timeout) } else { None })).await else {
+            case.fail("hang", format!("a call made after the connection failed ({kill:?}) had not returned two minutes later"));
+            return;
+        };
         case.check(later.is_err(), "call-on-dead-connection-succeeded", || "a call after the connection failed returned Ok".into());
-        let later2 = do_call(&client, CallKind::Empty, 1001, None).await;
+        let Ok(later2) = timeout(Duration::from_secs(120), do_call(&client, CallKind::Empty, 1001, None)).await else {
+            case.fail("hang", format!("a second call made after the connection failed ({kill:?}) had not returned two minutes later"));
+            return;
+        };
         case.check(later2.is_err(), "call-on-dead-connection-succeeded", || "a second call after the connection failed returned Ok".into());
         case.check(client.verif_pending_len() == 0, "pending-residue", || {
             format!("{} pending entries left after the connection failed", client.verif_pending_len())
         });
         drop(client);
-        let _ = server.await;
+        let _ = timeout(Duration::from_secs(10), server).await;
         case.nontrivial();
         if n_inflight > 0 {
             case.probe("calls_in_flight_at_fault");
